@@ -1,10 +1,10 @@
 package checks
 
 import (
-	"runtime"
 	"fmt"
 	"math/rand/v2"
 	"regexp"
+	"runtime"
 	"sort"
 	"sync"
 	"sync/atomic"
@@ -38,10 +38,10 @@ func (h *histRec) do(client int, in any, f func() any) {
 // ----- Map -----
 
 type mapIn struct {
-	Op   string
-	Key  string
-	V    int
-	Old  int
+	Op  string
+	Key string
+	V   int
+	Old int
 }
 type mapOut struct {
 	V  int
